@@ -258,6 +258,45 @@ def run(ctx: Any, prog: Program) -> None:
                           'are listed separately, and the extra name looks up to the other entry\'s content', func=f'{cls}.walk_folder', text=f'{cls}.walk_folder yields stored name')
                 continue
             ctx.check('C19.H3', ok, fs, y_, f'{cls}.walk_folder yields File(path={psrc}); it must be the stored file name (which the lookup normalises) or its key', func=f'{cls}.walk_folder', text=f'{cls}.walk_folder yields stored name')
+    # ---- H6: the zip backend reaches the archive only through its folded index ---------------------------------------------------------------
+    # ZipFile's own lookups (getinfo, NameToInfo, open/read with a name string) are exact-case: used with a name they bypass _name_to_info, so two
+    # spellings of one name can open different entries (case-duplicate entries) or one of them fails.  Inside ZipFileSystem the archive is
+    # opened with a ZipInfo taken from the index (or carried by a File the index produced).
+    ctx.rule('C19.H6', 'ZipFileSystem opens archive members by a ZipInfo from its folded index, never by ZipFile name lookups', floor=1)
+    zm = fs.methods('ZipFileSystem')
+    n_h6 = 0
+    for mn_, mf_ in zm.items():
+        info_names: Set[str] = set()
+        for a in ast.walk(mf_):
+            if isinstance(a, ast.Assign) and len(a.targets) == 1 and isinstance(a.targets[0], ast.Name):
+                v = a.value
+                if (isinstance(v, ast.Call) and dotted(v.func) == 'self._get_data') or (isinstance(v, ast.Subscript) and dotted(v.value) == 'self._name_to_info') \
+                        or (isinstance(v, ast.Call) and isinstance(v.func, ast.Attribute) and v.func.attr == 'get' and dotted(v.func.value) == 'self._name_to_info'):
+                    info_names.add(a.targets[0].id)
+            if isinstance(a, (ast.For, ast.comprehension)) and any(k in U(a.iter) for k in ('self._name_to_info', 'self.zip.infolist()')):
+                info_names |= {x.id for x in ast.walk(a.target) if isinstance(x, ast.Name)}
+        for c in ast.walk(mf_):
+            if isinstance(c, ast.Attribute) and dotted(c.value) == 'self.zip' and c.attr in ('getinfo', 'NameToInfo', 'namelist'):
+                n_h6 += 1
+                ctx.check('C19.H6', False, fs, c, f'ZipFileSystem.{mn_} uses `self.zip.{c.attr}`, the archive\'s exact-case name lookup: it bypasses the folded index, so the spelling of a query decides which of two entries differing '
+                          'only in case is opened (and other spellings of an existing name fail)', func=f'ZipFileSystem.{mn_}', text=f'{mn_}: no exact-case lookup ({c.attr})')
+            if isinstance(c, ast.Call) and isinstance(c.func, ast.Attribute) and dotted(c.func.value) == 'self.zip' and c.func.attr in ('open', 'read', 'extract') and c.args:
+                a0 = c.args[0]
+                n_h6 += 1
+                if isinstance(a0, ast.Name) and a0.id in info_names:
+                    # every definition of the name is an index entry?
+                    defs_ = [a.value for a in ast.walk(mf_) if isinstance(a, ast.Assign) and any(isinstance(t, ast.Name) and t.id == a0.id for t in a.targets)]
+                    bad_ = [d for d in defs_ if not ((isinstance(d, ast.Call) and dotted(d.func) == 'self._get_data') or (isinstance(d, ast.Subscript) and dotted(d.value) == 'self._name_to_info')
+                                                     or (isinstance(d, ast.Call) and isinstance(d.func, ast.Attribute) and d.func.attr == 'get' and dotted(d.func.value) == 'self._name_to_info'))]
+                    ctx.check('C19.H6', not bad_, fs, bad_[0] if bad_ else c, f'ZipFileSystem.{mn_} opens `{a0.id}`, which on one path is `{U(bad_[0])[:50] if bad_ else ""}` and not an entry of the folded index', func=f'ZipFileSystem.{mn_}',
+                              text=f'{mn_}: `{U(c)[:40]}` opens an index entry')
+                elif isinstance(a0, (ast.Subscript,)) and dotted(a0.value) == 'self._name_to_info' or (isinstance(a0, ast.Call) and dotted(a0.func) == 'self._get_data'):
+                    ctx.check('C19.H6', True, fs, c, 'index entry', func=f'ZipFileSystem.{mn_}', text=f'{mn_}: `{U(c)[:40]}` opens an index entry')
+                else:
+                    ctx.shape('C19.H6', False, fs, c, f'what `{U(a0)[:40]}` handed to self.zip.{c.func.attr}() is was not recognised (expected: a ZipInfo from self._name_to_info or self._get_data)', func=f'ZipFileSystem.{mn_}',
+                              text=f'{mn_}: `{U(c)[:40]}` opens an index entry')
+    if n_h6 < 1:
+        raise AnalysisError('H6: ZipFileSystem no longer opens members through self.zip.open(): anchor vanished')
     # ---- H5: the directory backend's two existence tests agree (and mean "is a file": the other backends only index files) ---------------
     ctx.rule('C19.H5', 'RawFileSystem._file_exists and _get_file use the same "is a file" test on the resolved path', floor=2)
     rawm = fs.methods('RawFileSystem')
@@ -573,6 +612,7 @@ def run(ctx: Any, prog: Program) -> None:
 
 
 MUTANTS = [
+    {'id': 'zip_open_by_stored_name', 'file': 'filesys.py', 'find': "            info = self._get_data(name)\n        else:\n            name = name.replace('\\\\', '/')", 'replace': "            info = self.zip.getinfo(self._get_data(name).filename)\n        else:\n            name = name.replace('\\\\', '/')", 'expect': 'C19.H6', 'note': 'round 11'},
     {'id': 'zip_walk_of_everything_from_infolist', 'file': 'filesys.py', 'find': "        if folder and not folder.endswith('/'):\n            # Only match whole folder names.\n            folder += '/'\n        for filename, fileinfo in self._name_to_info.items():", 'replace': "        if not folder:\n            for fileinfo in self.zip.infolist():\n                if not fileinfo.is_dir():\n                    yield File(self, fileinfo.filename, fileinfo)\n            return\n        if folder and not folder.endswith('/'):\n            # Only match whole folder names.\n            folder += '/'\n        for filename, fileinfo in self._name_to_info.items():", 'expect': 'C19.H3'},
     {'id': 'chain_walk_unprefixed_member_names_untouched', 'file': 'filesys.py', 'find': "            full_folder = os.path.join(prefix, folder).replace('\\\\', '/')\n            # The prefix to strip again.", 'replace': "            full_folder = os.path.join(prefix, folder).replace('\\\\', '/')\n            if not prefix:\n                for file in sys.walk_folder(full_folder):\n                    yield File(self, file.path.replace('\\\\', '/'), file)\n                continue\n            # The prefix to strip again.", 'expect': 'C19.H4'},
     {'id': 'raw_walk_by_glob', 'file': 'filesys.py', 'find': "        for dirpath, dirnames, filenames in os.walk(path):\n            for file in filenames:\n                rel_path = os.path.relpath(\n                    os.path.join(dirpath, file),\n                    self.path,\n                ).replace('\\\\', '/')\n                yield File(self, rel_path, rel_path)", 'replace': "        import glob\n        for name in glob.iglob('**', root_dir=path, recursive=True):\n            if os.path.isfile(os.path.join(path, name)):\n                rel_path = os.path.relpath(os.path.join(path, name), self.path).replace('\\\\', '/')\n                yield File(self, rel_path, rel_path)", 'expect': 'C19.H2'},
